@@ -10,7 +10,7 @@ CHECKS = {
    note="Trusted: the naive [][]bool / []bool model in checks/c16 (a few lines per operation) and rapid's generators. Unchecked accessors only receive in-range indices.",
    tech="model-based stateful property testing (rapid) against a naive model"),
  "C20": dict(cat="exploration", ref="DESIGN.md §4 C20",
-   text="Generated rows / start offsets / counter lengths against a run-length model, and the pattern-match score against the stated formula evaluated in exact rational arithmetic for every row of every library pattern table with all small counter vectors (exhaustive in the thorough tier) plus rapid-generated larger ones; +Inf classes and scale invariance included. The three best-match decoders (ITF, Code 128, UPC/EAN) are compared with 'unique lowest reference score below the limit' over all small run vectors and rapid-generated distortions.",
+   text="Generated rows / start offsets / counter lengths against a run-length model, and the pattern-match score against the stated formula evaluated in exact rational arithmetic for every row of every library pattern table with all small counter vectors (exhaustive in the thorough tier) plus rapid-generated larger ones; +Inf classes and scale invariance included. The three best-match decoders (ITF, Code 128, UPC/EAN) are compared with 'unique lowest reference score below the limit' over all small run vectors and rapid-generated distortions. Two further run-length acceptance rules in the anchored files: the RSS finder test (first-two-runs share within 9.5/12..12.5/14, widest < 10x narrowest) against an integer model for every vector of runs 1..20 and for scaled / larger ones, and Code 39 rows whose data characters have runs widened by 1-3 px (every character still with three unambiguous wide runs, none 1.5x the average) read at scale 1 and at a 2-5x enlargement.",
    note="Trusted: the run-length model and the big.Rat formula in checks/c20; tables come from the verif-tagged hooks. Cases within 1e-9 of the individual-variance boundary are skipped.",
    tech="property-based testing against a reference model / exact-rational formula; small domains enumerated"),
  "C01": dict(cat="exploration", ref="DESIGN.md §4 C01",
@@ -62,7 +62,7 @@ CHECKS = {
    note="Trusted: x/text encoders/decoders as the oracle for what is representable (not for gozxing's behaviour) and the AIM number table typed in checks/c15.",
    tech="round-trip property testing + exhaustive registry / ECI-number enumeration against an independent table"),
  "C19": dict(cat="exploration", ref="DESIGN.md §4 C19",
-   text="The transform is compared with an independent projective solve in 256-bit floats over rapid-generated convex quadrilateral pairs; sampled grids are compared cell by cell with the image pixel under the independently transformed cell centre; the nudge rules are enumerated on all four sides, both row ends and 11 distances, directly and through sampling with translated / sheared grids; all-black images detect any read outside the image. Grid-side reference points are also re-listed from other corners, reversed, or general convex quadrilaterals; twisted image-side quadrilaterals (as misdetected symbols give) must yield NotFound or image pixels only. Rows with several consecutive points inside an edge strip.",
+   text="The transform is compared with an independent projective solve in 256-bit floats over rapid-generated convex quadrilateral pairs; sampled grids are compared cell by cell with the image pixel under the independently transformed cell centre; the nudge rules are enumerated on all four sides, both row ends and 11 distances, directly and through sampling with translated / sheared grids; all-black images detect any read outside the image. Grid-side reference points are also re-listed from other corners, reversed, or general convex quadrilaterals; twisted image-side quadrilaterals (as misdetected symbols give) must yield NotFound or image pixels only. Rows with several consecutive points inside an edge strip. The transform the QR detector builds is checked at its call site: finder centres at grid (3.5,3.5),(dim-3.5,3.5),(3.5,dim-3.5) and the alignment centre (dim-6.5,dim-6.5), at sub-pixel positions, must map onto the points found (all 40 versions, with and without an alignment pattern).",
    note="Trusted: the 8x8 Gaussian elimination in big.Float in checks/c19. Cells within 1e-6 of a pixel boundary are skipped; degenerate quadrilaterals are not generated.",
    tech="property-based testing against an extended-precision reference + enumerated edge-rule cases"),
  "C17": dict(cat="exploration", ref="DESIGN.md §4 C17",
@@ -70,7 +70,7 @@ CHECKS = {
    note="Trusted: the naive model in checks/c17. Colour-to-luminance conversion is only checked at opaque black / white / gray; single-colour rows may be rejected or binarised exactly.",
    tech="model-based property testing (rapid) against a naive array model"),
  "C11": dict(cat="exploration", ref="DESIGN.md §4 C11",
-   text="Symbols are produced by an independent Aztec encoder (internal/azref) from rapid-generated token walks over the five code tables, shifts, latches and binary shifts; every one of the 36 sizes is forced each run; decoding is checked at three observation points (high-level bits, matrix with detector result, rendered image in four rotations at scales 2..5) with damage up to the correction capacity.",
+   text="Symbols are produced by an independent Aztec encoder (internal/azref) from rapid-generated token walks over the five code tables, shifts, latches and binary shifts; every one of the 36 sizes is forced each run; decoding is checked at three observation points (high-level bits, matrix with detector result, rendered image in four rotations at scales 2..5, quiet zones 0..10 modules, square / wide / tall pictures incl. ones where the bull's eye lies farther along the long side than the short side is long) with damage up to the correction capacity.",
    note="Trusted: internal/azref (tables, stuffing, RS over own GF arithmetic, mode message, layout), validated by the unchanged tree decoding all sizes. One known finding (centre estimate of sparse symbols) is listed with a matcher that recomputes the library's own first-stage centre estimate.",
    tech="property-based testing with an independent reference encoder as symbol source"),
  "C06": dict(cat="exploration", ref="DESIGN.md §4 C06",
